@@ -168,7 +168,19 @@ def to_json(I, v, hint=None):
             return to_json(I, v.f[0])  # newtype
         if not fields:
             return jnull()
-        return jobj([(fn, to_json(I, x)) for (fn, ft, fa), x in zip(fields, v.f)])
+        pairs = []
+        for (fn, ft, fa), x in zip(fields, v.f):
+            sa = _serde_attr(fa)
+            # field attributes of serde's derive that change what is written
+            if re.search(r"\bskip\b(?!_)", sa) or re.search(r"\bskip_serializing\b(?!_)", sa):
+                continue
+            m = re.search(r'skip_serializing_if\s*=\s*"([^"]+)"', sa)
+            if m and _skip_if(I, m.group(1), x):
+                continue
+            if "flatten" in sa or "serialize_with" in sa or re.search(r"\bwith\s*=", sa):
+                raise Unsupported("serde field attribute on %s.%s: %s" % (st, fn, sa))
+            pairs.append((_renamed(sa, fn, "serialize"), to_json(I, x)))
+        return jobj(pairs)
     if isinstance(v, Char):
         return jstr(v.c)
     raise Unsupported("serialize %r" % (v,))
@@ -314,9 +326,42 @@ def _inner(t):
     return t[t.index("<") + 1 : t.rindex(">")]
 
 
+def _serde_attr(fattrs):
+    return " ".join(a for a in (fattrs or []) if "serde" in a)
+
+
+def _renamed(sa, fn, direction):
+    m = re.search(r'rename\s*=\s*"([^"]+)"', sa) or re.search(r'rename\s*\(\s*[^)]*%s\s*=\s*"([^"]+)"' % direction, sa)
+    return m.group(1) if m else fn
+
+
+def _skip_if(I, pred, x):
+    """skip_serializing_if predicates on plain containers; anything else is not modelled"""
+    x = deref(x) if isinstance(x, (Ptr, ValPtr, MapSlot, BoxV)) else x
+    name = pred.split("::")[-1]
+    if name == "is_none" and isinstance(x, Enum) and x.ty == "Option":
+        return x.d == 0
+    if name == "is_empty":
+        if isinstance(x, VecV):
+            return len(x.a) == 0
+        if isinstance(x, str):
+            return x == ""
+        if hasattr(x, "keys"):
+            return len(list(x.keys())) == 0
+    raise Unsupported("skip_serializing_if predicate " + pred)
+
+
 def _field(I, jv, fn, ft, fattrs, struct_default=False):
     m = jv.f[0]
-    kb = m.d.get(fn)
+    sa = _serde_attr(fattrs)
+    if re.search(r"\bskip\b(?!_)", sa) or re.search(r"\bskip_deserializing\b", sa):
+        return default_for(I, _canon(ft), None)
+    if "flatten" in sa or "deserialize_with" in sa or re.search(r"\bwith\s*=", sa):
+        raise Unsupported("serde field attribute on %s: %s" % (fn, sa))
+    kb = m.d.get(_renamed(sa, fn, "deserialize"))
+    if kb is None:
+        for al in re.findall(r'alias\s*=\s*"([^"]+)"', sa):
+            kb = kb or m.d.get(al)
     if kb is None:
         if any("default" in a for a in fattrs) or struct_default:
             return default_for(I, _canon(ft), None)
